@@ -790,6 +790,204 @@ fn sweep(run: &mut Run, rng: &mut Rng, c: &Case, kind: &str, stride: usize, focu
     }
 }
 
+// ─────────────── structure-aware rewrites of the active manifest's COSE_Sign1 ───────────────
+
+use coset::cbor::value::Value as CV;
+
+fn cbor_ser(v: &CV) -> Vec<u8> {
+    let mut o = vec![];
+    coset::cbor::into_writer(v, &mut o).expect("cbor");
+    o
+}
+
+fn leaf_of(kind: &[u8; 4], content: &[u8]) -> Node {
+    let mut b = ((content.len() + 8) as u32).to_be_bytes().to_vec();
+    b.extend_from_slice(kind);
+    b.extend_from_slice(content);
+    Node::Leaf(b)
+}
+
+/// the `cbor` content box of the part of `m` whose label starts with `prefix`: (part index, child index, content)
+fn cbor_of_part(m: &Node, prefix: &str) -> Option<(usize, usize, Vec<u8>)> {
+    let Node::Super(_, parts) = m else { return None };
+    for (pi, part) in parts.iter().enumerate() {
+        if !label_of(part).starts_with(prefix) {
+            continue;
+        }
+        if let Node::Super(_, kids) = part {
+            for (ci, k) in kids.iter().enumerate() {
+                if let Node::Leaf(b) = k {
+                    if b.len() >= 8 && &b[4..8] == b"cbor" {
+                        return Some((pi, ci, b[8..].to_vec()));
+                    }
+                }
+            }
+        }
+    }
+    None
+}
+
+/// Re-encoded variants of the COSE_Sign1 of the active manifest (detached payload replaced by an
+/// embedded one, header entries moved / duplicated, tag dropped), every enclosing JUMBF length
+/// rebuilt. The signature value and (unless stated) the protected header stay as signed.
+fn cose_rewrites(store: &[u8], rng: &mut Rng) -> Vec<(String, Vec<u8>)> {
+    let mut out = vec![];
+    let Some(top) = parse_nodes(store) else { return out };
+    let [root] = top.as_slice() else { return out };
+    let Node::Super(_, manifests) = root else { return out };
+    let Some(active) = manifests.len().checked_sub(1) else { return out };
+    let Some((spi, sci, cose)) = cbor_of_part(&manifests[active], "c2pa.signature") else { return out };
+    let Some((_, _, claim)) = cbor_of_part(&manifests[active], "c2pa.claim") else { return out };
+    let Ok(v) = coset::cbor::from_reader::<CV, _>(cose.as_slice()) else { return out };
+    let (tagged, arr) = match v {
+        CV::Tag(18, inner) => match *inner {
+            CV::Array(a) => (true, a),
+            _ => return out,
+        },
+        CV::Array(a) => (false, a),
+        _ => return out,
+    };
+    if arr.len() != 4 {
+        return out;
+    }
+    let mut emit = |name: &str, a: Vec<CV>, tag: bool| {
+        let body = if tag { CV::Tag(18, Box::new(CV::Array(a))) } else { CV::Array(a) };
+        let mut r = root.clone();
+        if let Some(ms) = kids_mut(&mut r) {
+            if let Some(parts) = kids_mut(&mut ms[active]) {
+                if let Some(kids) = kids_mut(&mut parts[spi]) {
+                    kids[sci] = leaf_of(b"cbor", &cbor_ser(&body));
+                }
+            }
+        }
+        out.push((name.to_string(), ser_node(&r)));
+    };
+    let with_payload = |p: CV| {
+        let mut a = arr.clone();
+        a[2] = p;
+        a
+    };
+    // the payload slot
+    emit("payload=claim", with_payload(CV::Bytes(claim.clone())), tagged);
+    let mut other = claim.clone();
+    if let Some(b) = other.last_mut() {
+        *b ^= 1;
+    }
+    emit("payload=other", with_payload(CV::Bytes(other)), tagged);
+    emit("payload=empty", with_payload(CV::Bytes(vec![])), tagged);
+    emit("payload=random", with_payload(CV::Bytes(rng.bytes(32))), tagged);
+    emit("payload=claim-as-text", with_payload(CV::Text(String::from_utf8_lossy(&claim).to_string())), tagged);
+    emit("payload=claim:untagged", with_payload(CV::Bytes(claim.clone())), !tagged);
+    emit("same:retagged", arr.clone(), !tagged);
+    // header entries
+    let prot: Option<Vec<(CV, CV)>> = match &arr[0] {
+        CV::Bytes(b) if b.is_empty() => Some(vec![]),
+        CV::Bytes(b) => match coset::cbor::from_reader::<CV, _>(b.as_slice()) {
+            Ok(CV::Map(m)) => Some(m),
+            _ => None,
+        },
+        _ => None,
+    };
+    if let (Some(prot), CV::Map(unprot)) = (prot, &arr[1]) {
+        for with_claim in [false, true] {
+            let pl = if with_claim { CV::Bytes(claim.clone()) } else { arr[2].clone() };
+            let sfx = if with_claim { "+payload=claim" } else { "" };
+            if let Some(first) = unprot.first() {
+                // unprotected -> protected
+                let (mut p2, mut u2) = (prot.clone(), unprot.clone());
+                p2.push(first.clone());
+                u2.remove(0);
+                emit(&format!("hdr:unprot-to-prot{sfx}"), vec![CV::Bytes(cbor_ser(&CV::Map(p2))), CV::Map(u2), pl.clone(), arr[3].clone()], tagged);
+                // duplicated unprotected label
+                let mut u3 = unprot.clone();
+                u3.push(first.clone());
+                emit(&format!("hdr:dup-unprot{sfx}"), vec![arr[0].clone(), CV::Map(u3), pl.clone(), arr[3].clone()], tagged);
+            }
+            if let Some(firstp) = prot.first() {
+                // protected -> unprotected (copy: the protected bytes stay as signed)
+                let mut u4 = unprot.clone();
+                u4.push(firstp.clone());
+                emit(&format!("hdr:prot-copied-to-unprot{sfx}"), vec![arr[0].clone(), CV::Map(u4), pl.clone(), arr[3].clone()], tagged);
+                // protected -> unprotected (move)
+                let (mut p5, mut u5) = (prot.clone(), unprot.clone());
+                u5.push(p5.remove(0));
+                emit(&format!("hdr:prot-to-unprot{sfx}"), vec![CV::Bytes(cbor_ser(&CV::Map(p5))), CV::Map(u5), pl.clone(), arr[3].clone()], tagged);
+            }
+        }
+    }
+    out
+}
+
+/// positions (in the original store, valid in a rewrite as long as the bytes before the signature
+/// box keep their place) of byte changes of the active claim and of one of its assertions
+fn claim_and_assertion_flips(store: &[u8], rng: &mut Rng, titles: &[&str]) -> Vec<(String, usize, u8)> {
+    let mut out = vec![];
+    let Some(root) = supers(store, 0, store.len()).into_iter().next() else { return out };
+    let manifests = supers(store, root.3, root.0 + root.1);
+    let Some(m) = manifests.last() else { return out };
+    for part in supers(store, m.3, m.0 + m.1) {
+        if part.2.starts_with("c2pa.claim") {
+            let pos = payload_positions(store, part.3, part.0 + part.1);
+            // a letter of the title (the claim still decodes), and a few random payload bytes
+            for t in titles {
+                if let Some(at) = store[part.0..part.0 + part.1].windows(t.len()).position(|w| w == t.as_bytes()) {
+                    out.push((format!("claim-title@{}", part.0 + at), part.0 + at, 0x01));
+                }
+            }
+            for _ in 0..2 {
+                if !pos.is_empty() {
+                    let p = pos[rng.below(pos.len() as u64) as usize];
+                    out.push((format!("claim@{p}"), p, 1 << rng.below(8)));
+                }
+            }
+        } else if part.2 == "c2pa.assertions" {
+            for a in supers(store, part.3, part.0 + part.1) {
+                if a.2.starts_with("org.verif.") {
+                    let pos = payload_positions(store, a.3, a.0 + a.1);
+                    if let Some(p) = pos.last() {
+                        // last payload byte: a character of the note text
+                        out.push((format!("assertion:{}@{p}", a.2), p - 1, 0x01));
+                    }
+                    break;
+                }
+            }
+        }
+    }
+    out
+}
+
+/// COSE rewrites alone and combined with a change of the claim / an assertion: read back
+fn cose_level(run: &mut Run, rng: &mut Rng, c: &Case) -> Vec<(String, Vec<u8>, bool)> {
+    let mut for_verify = vec![];
+    let titles = ["single", "child", "grandchild", "rchild", "rgrandchild"];
+    let flips = claim_and_assertion_flips(&c.store, rng, &titles);
+    let mut edits: Vec<(String, Vec<u8>)> = vec![];
+    for (name, rewritten) in cose_rewrites(&c.store, rng) {
+        edits.push((format!("cose[{name}]"), rewritten.clone()));
+        for (fname, p, mask) in &flips {
+            if rewritten.get(*p) == c.store.get(*p) {
+                let mut s = rewritten.clone();
+                s[*p] ^= mask;
+                edits.push((format!("cose[{name}]+{fname}"), s));
+            }
+        }
+    }
+    let reports = par_map(&edits, |(_, e)| read_with_store(&c.format, &c.asset, e));
+    for ((name, edited), r) in edits.into_iter().zip(reports) {
+        let o = outcome(&c.base, &r);
+        let kind = name.split('@').next().unwrap_or("").to_string();
+        run.count(&format!("{}:{o}", kind.split(':').next().unwrap_or("")));
+        run.nontrivial(format!("{}:{name}", c.name));
+        if o == 'X' || o == 'P' {
+            let idx = run.case(format!("C02 oracle case={} edit={name}", c.name), "oracle-only".into());
+            let class = if o == 'P' { "panic" } else { "cose-rewrite-accepted-changed-report" };
+            run.fail(idx, class, format!("{} {name}: state {} with a different report (COSE_Sign1 of the active manifest re-encoded)", c.name, r.state));
+        }
+        for_verify.push((name.clone(), edited, name.contains("+claim") || name.contains("+assertion")));
+    }
+    for_verify
+}
+
 fn structural(run: &mut Run, c: &Case) {
     let edits = structural_edits(&c.store);
     let reports = par_map(&edits, |(_, edited)| read_with_store(&c.format, &c.asset, edited));
@@ -919,8 +1117,25 @@ fn abs_manifest(store: &hk20::Store, c: &hk20::Claim, signed: &Signed) -> Option
     if !proto_safe(c.label()) {
         return None;
     }
+    // embedded payload of the COSE_Sign1 (`-` = nil / detached)
+    let embedded = {
+        let v: Option<CV> = coset::cbor::from_reader(c.signature_val().as_slice()).ok();
+        let arr = match v {
+            Some(CV::Tag(_, inner)) => match *inner {
+                CV::Array(a) => Some(a),
+                _ => None,
+            },
+            Some(CV::Array(a)) => Some(a),
+            _ => None,
+        };
+        match arr.as_ref().and_then(|a| a.get(2)) {
+            Some(CV::Bytes(b)) => h8(&sha(b)),
+            Some(CV::Text(t)) => h8(&sha(t.as_bytes())),
+            _ => "-".to_string(),
+        }
+    };
     Some(format!(
-        "L={};V={};D={};S={};SH={};BH={};A={};T={};R={}",
+        "L={};V={};D={};S={};P={embedded};SH={};BH={};A={};T={};R={}",
         c.label(),
         c.version(),
         h8(&sha(&data)),
@@ -1044,7 +1259,7 @@ fn verify_edits(rng: &mut Rng, store: &[u8], per_box: usize) -> Vec<(String, Vec
     out
 }
 
-fn verify_level(run: &mut Run, rng: &mut Rng, c: &Case, per_box: usize) {
+fn verify_level(run: &mut Run, rng: &mut Rng, c: &Case, per_box: usize, extra: Vec<(String, Vec<u8>, bool)>) {
     let ctx = Context::new().with_settings(settings().as_str()).expect("settings");
     let load = |b: &[u8]| {
         let (b, ctx) = (b.to_vec(), &ctx);
@@ -1058,7 +1273,9 @@ fn verify_level(run: &mut Run, rng: &mut Rng, c: &Case, per_box: usize) {
         return;
     };
     let signed = signed_map(&pristine);
-    for (name, edited, payload_change) in verify_edits(rng, &c.store, per_box) {
+    let mut all_edits = verify_edits(rng, &c.store, per_box);
+    all_edits.extend(extra);
+    for (name, edited, payload_change) in all_edits {
         let kind = name.split(':').last().unwrap_or("").split('@').next().unwrap_or("").trim_end_matches(|ch: char| ch.is_ascii_digit() || ch == '-').to_string();
         let st = match load(&edited) {
             Ok(Ok(st)) => st,
@@ -1164,7 +1381,8 @@ fn run(run: &mut Run, rng: &mut Rng) {
         sweep(run, rng, c, "flip", flip, thorough || depth2);
         sweep(run, rng, c, "set", set, thorough);
         structural(run, c);
-        verify_level(run, rng, c, if thorough { 12 } else { 3 });
+        let cose = cose_level(run, rng, c);
+        verify_level(run, rng, c, if thorough { 12 } else { 3 }, cose);
     }
     // embedded variants: JPEG (APP11 segments) and MP4 (uuid box), no container checksums
     let jpg = ec::gen_asset(Family::Jpeg, rng, None);
